@@ -425,6 +425,7 @@ type InvDef struct {
 
 type LoopSpec struct {
 	Invariants []Clause
+	Assumes    []Clause // assumed (never checked) at the loop head; reported as an assumption in the evidence
 	Decreases  Expr
 	Modifies   []Expr
 	Hints      []Hint
@@ -461,6 +462,7 @@ type FuncSpec struct {
 	Requires []Clause
 	Ensures  []Clause
 	Modifies []Expr
+	Interference []Expr // locations other goroutines may change while this one blocks on a channel operation
 	Panics   *Clause
 	NoPanic  bool
 	MayPanic bool
@@ -490,6 +492,7 @@ type ContractFile struct {
 	Specs   []*SpecFunc
 	Lemmas  []*Lemma
 	Invs    []*InvDef
+	ChanInvs []*InvDef // chaninv Struct.field(v): expr -- Type is "Struct.field"
 	Funcs   []*FuncSpec
 	Ghosts  []*GhostDecl
 	Opaque  []string
@@ -638,8 +641,8 @@ func parseExprList(s string) ([]Expr, error) {
 }
 
 var clauseKeywords = map[string]bool{"requires": true, "ensures": true, "modifies": true, "panics": true, "pure": true,
-	"decreases": true, "hint": true, "loop": true, "at": true, "params": true, "nopanic": true, "maypanic": true, "allocates": true, "ghost": true}
-var itemKeywords = map[string]bool{"const": true, "spec": true, "lemma": true, "inv": true, "invexports": true, "ghost": true, "iface": true,
+	"decreases": true, "hint": true, "loop": true, "at": true, "params": true, "nopanic": true, "maypanic": true, "allocates": true, "ghost": true, "interference": true}
+var itemKeywords = map[string]bool{"const": true, "spec": true, "lemma": true, "inv": true, "chaninv": true, "invexports": true, "ghost": true, "iface": true,
 	"funcfield": true, "func": true, "viewfunc": true, "trusted": true, "package": true, "opaque": true}
 
 // logicalLines joins continuation lines: a line that does not start with a
@@ -794,6 +797,22 @@ func ParseContractFile(path string, pkgPath string) (*ContractFile, error) {
 			cf.Invs = append(cf.Invs, &InvDef{Type: hf[0], Name: hf[1][:i], Var: strings.TrimSuffix(hf[1][i+1:], ")"), Body: b, Pkg: cf.Pkg, Abstract: abstract})
 			cur, curLemma = nil, nil
 			continue
+		case "chaninv":
+			// chaninv Struct.field(v): expr -- every value sent on the channel held in that field satisfies expr
+			// (obligation at each send), so every value received from it does (assumed at each receive)
+			k := strings.Index(rest, ":")
+			i := strings.Index(rest, "(")
+			j := strings.Index(rest, ")")
+			if k < 0 || i < 0 || j < i || k < j {
+				return nil, fail(l, fmt.Errorf("chaninv Struct.field(v): expr"))
+			}
+			b, err := ParseExpr(rest[k+1:])
+			if err != nil {
+				return nil, fail(l, err)
+			}
+			cf.ChanInvs = append(cf.ChanInvs, &InvDef{Type: strings.TrimSpace(rest[:i]), Name: "chaninv", Var: strings.TrimSpace(rest[i+1 : j]), Body: b, Pkg: cf.Pkg})
+			cur, curLemma = nil, nil
+			continue
 		case "invexports":
 			// invexports name: expr -- consequences of an abstract invariant that clients outside its package may use
 			// (that the invariant implies them is a separate lemma obligation)
@@ -917,6 +936,12 @@ func ParseContractFile(path string, pkgPath string) (*ContractFile, error) {
 				return nil, fail(l, err)
 			}
 			cur.Modifies = append(cur.Modifies, es...)
+		case "interference":
+			es, err := parseExprList(rest)
+			if err != nil {
+				return nil, fail(l, err)
+			}
+			cur.Interference = append(cur.Interference, es...)
 		case "panics":
 			c, err := parseClause(rest)
 			if err != nil {
@@ -976,6 +1001,12 @@ func ParseContractFile(path string, pkgPath string) (*ContractFile, error) {
 					return nil, fail(l, err)
 				}
 				ls.Invariants = append(ls.Invariants, c)
+			case "assumes":
+				c, err := parseClause(f3[2])
+				if err != nil {
+					return nil, fail(l, err)
+				}
+				ls.Assumes = append(ls.Assumes, c)
 			case "decreases":
 				e, err := ParseExpr(f3[2])
 				if err != nil {
